@@ -57,6 +57,18 @@ def build_values(tier):
                 descs.append({"derived": label, "from (rendered first)": C.show_spec(s)})
             except Exception:  # noqa
                 pass
+    # twins whose single run holds another value's terminal string as *unparsed* text (what `x + str(v)` produces):
+    # same terminal string as v, different length and structure
+    from curtsies.formatstring import fmtstr
+
+    for sp in specs[:: (7 if tier == "thorough" else 13)]:
+        v = C.build(sp)
+        if len(sp) == 0:
+            continue
+        vals.append(fmtstr("") + str(v))
+        descs.append({"raw terminal string of": C.show_spec(sp), "attached with": "fmtstr('') + str(v)"})
+        vals.append(v[:1] + str(v[1:]))
+        descs.append({"raw terminal string of the tail of": C.show_spec(sp), "attached with": "v[:1] + str(v[1:])"})
     return descs, vals
 
 
